@@ -1421,7 +1421,11 @@ func projC08(n *nmEnv, tr *nmTrack, op nmOp) []nmQuery {
 	for e := tr.epoch - tr.count - 1; e <= tr.epoch+1; e++ {
 		qs = append(qs, nmQuery{kind: "QSnapshotByEpoch", z: e})
 	}
-	for e := tr.epoch - 14; e <= tr.epoch+1; e++ {
+	lo := tr.epoch - 14
+	if tr.epoch <= 45 && lo > 0 {
+		lo = 0 // every epoch from 0 to the current one: nothing older than the window may remain
+	}
+	for e := lo; e <= tr.epoch+1; e++ {
 		qs = append(qs, nmQuery{kind: "QListNodes", z: e})
 	}
 	return qs
@@ -1822,6 +1826,15 @@ func (g *nmGen) planC08(counts []int64, ticks []int, lightWarmup bool) {
 		inBlock := light || prevJoined // the candidate changes share the block of the tick(s)
 		i := int(epoch) % nn
 		tag := byte(epoch)
+		if g.r.Intn(7) == 0 {
+			// an epoch that publishes EMPTY maps in both formats
+			for j := 0; j < nn; j++ {
+				g.plan = append(g.plan, nmOp{Kind: "deleteNode", Key: n.nodes[j].pub, Signers: al, Join: inBlock})
+			}
+			g.plan = append(g.plan, nmOp{Kind: "newEpoch", Epoch: epoch, Signers: al, Light: light, Join: joinNext})
+			prevJoined = joinNext
+			return
+		}
 		// make this epoch's candidate sets distinguishable in both formats
 		// warm-up ticks: the candidate changes share the block of the tick (several transactions per block)
 		g.plan = append(g.plan, nmOp{Kind: "addPeerIR", Info: n.info(i, tag, 2), Signers: al, Join: inBlock})
@@ -1878,6 +1891,15 @@ func nmCorpus(prop string, n *nmEnv) [][]nmOp {
 		}
 		return out
 	}
+	// emptyTick: every candidate (both formats) is removed, then the tick publishes empty maps
+	emptyTick := func(e int64) []nmOp {
+		var out []nmOp
+		for i := range n.nodes {
+			out = append(out, nmOp{Kind: "deleteNode", Key: n.nodes[i].pub, Signers: al})
+		}
+		return append(out, tick(e))
+	}
+	_ = emptyTick
 	cat := func(xs ...[]nmOp) []nmOp {
 		var out []nmOp
 		for _, x := range xs {
@@ -2013,6 +2035,11 @@ func nmCorpus(prop string, n *nmEnv) [][]nmOp {
 				tick(11),
 				tick(12),
 			},
+			// epochs around 2^31 and 2^32: the minimal signed little-endian encoding needs a 5th
+			// byte from 2^31 on, the four-byte key still distinguishes every epoch below 2^32; at
+			// 2^32 and beyond the key wraps (aliases; compared with the model)
+			{addN(0, "a"), {Kind: "addPeerIR", Info: n.info(1, 1, 2), Signers: al}, tick(1<<31 - 1), addN(1, "b"), tick(1 << 31), tick(1<<31 + 1),
+				{Kind: "updateStateIR", State: 3, Key: k0, Signers: al}, tick(1<<32 - 2), addN(2, "c"), tick(1<<32 - 1), tick(1 << 32), tick(1<<32 + 1)},
 			// a non-empty map is published, the candidate set is emptied, then more ticks than
 			// the ring has slots: the reused slot must hold the EMPTY map
 			cat([]nmOp{{Kind: "addPeerIR", Info: n.info(0, 1, 2), Signers: al}, addN(0, "n0"), tick(1), {Kind: "deleteNode", Key: k0, Signers: al}},
@@ -2129,6 +2156,14 @@ func nmCorpus(prop string, n *nmEnv) [][]nmOp {
 			// structured nodes, a resize after epoch 256, jumps to 65535 (+1, +2) and 2^24 (+1)
 			cat(ticks(1, 2), ticks(255, 258), []nmOp{resize(3)}, ticks(259, 261), ticks(65535, 65537), []nmOp{resize(5)},
 				ticks(1<<24, 1<<24+2), ticks(1<<24+255, 1<<24+257)),
+			// epochs around 2^31 and up to 2^32-1 (five-byte integers, four-byte keys), with a resize
+			cat(ticks(1, 2), ticks(1<<31-2, 1<<31+2), []nmOp{resize(3)}, ticks(1<<31+3, 1<<31+4), ticks(1<<32-3, 1<<32-1)),
+			// epochs that publish EMPTY maps (both formats) at every position relative to the window
+			// a shrink / the ticks expire: older lists must be gone whatever lies in between
+			cat(ticks(1, 3), emptyTick(4), ticks(5, 8), []nmOp{resize(3)}, ticks(9, 10)),
+			cat(ticks(1, 5), emptyTick(6), emptyTick(7), ticks(8, 9), []nmOp{resize(2)}, ticks(10, 12)),
+			cat(ticks(1, 6), emptyTick(7), ticks(8, 8), []nmOp{resize(1)}, emptyTick(9), ticks(10, 11), []nmOp{resize(4)}, ticks(12, 13), emptyTick(14), ticks(15, 20), []nmOp{resize(2)}),
+			cat(emptyTick(1), ticks(2, 9), emptyTick(10), ticks(11, 12), emptyTick(13), ticks(14, 16), []nmOp{resize(5), resize(3)}, ticks(17, 18)),
 			// empty candidate set after non-empty maps, ring of 2: the reused slots must hold the empty map
 			cat(ticks(1, 2), []nmOp{resize(2), {Kind: "deleteNode", Key: n.nodes[1%len(n.nodes)].pub, Signers: al},
 				{Kind: "deleteNode", Key: n.nodes[2%len(n.nodes)].pub, Signers: al}, tick(3), tick(4), tick(5)}),
@@ -3273,8 +3308,70 @@ func runProbeCallbacks(t *testing.T, st *Stats) {
 			violate("netmap() after newEpoch(2) is not the candidate set: " + got.key())
 		}
 	}
+	// D: ticks that reach Netmap directly, through a SUBSCRIBED probe forwarding them,
+	// through a non-subscribed forwarder, and from inside a callback (newEpoch(e+1)
+	// requested during newEpoch(e): a growing epoch, so both ticks happen): every
+	// subscriber's call log must list every epoch exactly once, in tick order
+	{
+		n := newNmEnvN(t, Rng(7400), false, 3, 4, 1)
+		readable = nil
+		w := &world{n: n, p0: n.probes[0], p1: n.probes[1]}
+		fwd := n.probes[2] // never subscribed
+		do(w, true, n.netmap, "subscribeForNewEpoch", w.p1)
+		do(w, true, n.netmap, "subscribeForNewEpoch", w.p0)
+		do(w, true, n.netmap, "addPeerIR", n.info(0, 1, 3))
+		var ticked []int64
+		once := func(what string, r Result, epochs ...int64) {
+			checks++
+			ticked = append(ticked, epochs...)
+			// the application log: every subscriber, in subscription order, per epoch
+			var want []gv
+			if len(epochs) == 1 {
+				want = []gv{gList(gInt(5), gBytes(w.p1.BytesBE()), gInt(epochs[0])), gList(gInt(5), gBytes(w.p0.BytesBE()), gInt(epochs[0])), gList(gInt(3), gInt(epochs[0]))}
+			} else { // newEpoch(a) whose second subscriber requests newEpoch(b) from its callback
+				a, b := epochs[0], epochs[1]
+				want = []gv{gList(gInt(5), gBytes(w.p1.BytesBE()), gInt(a)), gList(gInt(5), gBytes(w.p0.BytesBE()), gInt(a)),
+					gList(gInt(5), gBytes(w.p1.BytesBE()), gInt(b)), gList(gInt(5), gBytes(w.p0.BytesBE()), gInt(b)), gList(gInt(3), gInt(b)), gList(gInt(3), gInt(a))}
+			}
+			var got []gv
+			for _, ev := range r.Events {
+				items := ev.Item.Value().([]stackitem.Item)
+				switch {
+				case ev.Name == "ProbeEpoch":
+					got = append(got, gList(gInt(5), gBytes(ev.ScriptHash.BytesBE()), itemGV(items[0])))
+				case ev.ScriptHash == n.netmap && ev.Name == "NewEpoch":
+					got = append(got, gList(gInt(3), itemGV(items[0])))
+				}
+			}
+			if !gListOf(got).eq(gListOf(want)) {
+				violate(fmt.Sprintf("%s: calls and notifications %s, expected %s", what, gListOf(got).key(), gListOf(want).key()))
+			}
+			for _, p := range []util.Uint160{w.p0, w.p1} {
+				for _, e := range ticked {
+					if c := n.ReadInt(p, "calls", e).Int64(); c != 1 {
+						violate(fmt.Sprintf("%s: subscriber %s was called %d times for epoch %d, expected exactly once", what, p.StringLE(), c, e))
+					}
+				}
+				if tot := n.ReadInt(p, "total").Int64(); tot != int64(len(ticked)) {
+					violate(fmt.Sprintf("%s: subscriber %s accepted %d calls, expected %d", what, p.StringLE(), tot, len(ticked)))
+				}
+			}
+			if got := n.ReadInt(n.netmap, "epoch").Int64(); got != ticked[len(ticked)-1] && !(len(epochs) == 2 && got == epochs[1]) {
+				violate(fmt.Sprintf("%s: epoch() = %d", what, got))
+			}
+		}
+		once("direct newEpoch(1)", do(w, true, n.netmap, "newEpoch", int64(1)), 1)
+		once("newEpoch(3) forwarded by a subscribed contract", do(w, true, w.p0, "tick", n.netmap, int64(3)), 3)
+		once("newEpoch(4) forwarded by a contract that is not subscribed", do(w, true, fwd, "tick", n.netmap, int64(4)), 4)
+		do(w, false, w.p1, "tick", n.netmap, int64(4)) // not a growing epoch
+		do(w, true, w.p0, "setMode", 2, n.netmap, 1)
+		once("newEpoch(5) with newEpoch(6) requested from inside the callback", do(w, true, n.netmap, "newEpoch", int64(5)), 5, 6)
+		do(w, true, w.p0, "setMode", 0, n.netmap, nil)
+		once("newEpoch(8) forwarded by the first subscriber", do(w, true, w.p1, "tick", n.netmap, int64(8)), 8)
+		once("direct newEpoch(9)", do(w, true, n.netmap, "newEpoch", int64(9)), 9)
+	}
 	st.Evaluations += evals
-	st.Histories += 5
-	st.Extra["probe_callbacks"] = map[string]any{"histories": 5, "invocations": evals, "callback_checks": checks,
+	st.Histories += 6
+	st.Extra["probe_callbacks"] = map[string]any{"histories": 6, "invocations": evals, "callback_checks": checks,
 		"note": "subscribers that read Netmap, re-enter newEpoch or add a candidate during their callback; judged by the Go monitor (the model's subscribers do not call back)"}
 }
